@@ -26,10 +26,12 @@ def sh(cmd, cwd, timeout=1800, env=None):
 def demo(wt, d, meta):
     src = open(os.path.join(d, "demo_test.go")).read()
     names = re.findall(r"^func (Test\w+)\(", src, re.M)
-    dst = os.path.join(wt, "slog", "zz_seeded_demo_test.go")
+    pkg = meta.get("demo_package", "slog")
+    pkgdir = pkg if "/" in pkg else "slog"
+    dst = os.path.join(wt, pkgdir, "zz_seeded_demo_test.go")
     shutil.copyfile(os.path.join(d, "demo_test.go"), dst)
     race = "-race" if "-race" in meta.get("demo_cmd", "") else ""
-    rc, out = sh("go test -vet=off -count=1 %s -run '^(%s)$' ./slog/" % (race, "|".join(names)), wt)
+    rc, out = sh("go test -vet=off -count=1 %s -run '^(%s)$' ./%s/" % (race, "|".join(names), pkgdir), wt)
     os.remove(dst)
     return rc, out
 
